@@ -141,6 +141,62 @@ Proof.
 Qed.
 End ScanComplete.
 
+(* ------------------------------------------------------------------------------------------------ where a round stops *)
+(* A pass defers a node only behind a node it did not include: if every parent of v is included at the end of the pass, v has
+   been included or trained in that pass.  So the stage boundaries are exactly the readouts trained in the round. *)
+Section NoDefer.
+Variable g : graph.
+Hypothesis Hwf : wf_dagb g = true.
+Notation st := (list nat * list nat * list nat)%type.
+
+Lemma scan_incl_mono x : forall l (s : st), In x (snd (fst s)) -> In x (snd (fst (fold_left (scan_step g) l s))).
+Proof.
+  induction l as [|n l IH]; intros s H; [exact H|]. simpl. apply IH.
+  destruct s as [[sub incl] trn]. unfold scan_step.
+  destruct (is_input g n || forallb (fun p => mem p incl) (parents g n)); [|exact H].
+  destruct (offline g n && negb (mem n trn)); [exact H|right; exact H].
+Qed.
+
+Lemma scan_incl_back p : forall l (s : st), ~ In p l -> In p (snd (fst (fold_left (scan_step g) l s))) -> In p (snd (fst s)).
+Proof.
+  induction l as [|n l IH]; intros s Hn H; [exact H|]. simpl in H.
+  apply IH in H; [|intros Hc; apply Hn; right; exact Hc].
+  destruct s as [[sub incl] trn]. unfold scan_step in H.
+  destruct (is_input g n || forallb (fun q => mem q incl) (parents g n)); [|exact H].
+  destruct (offline g n && negb (mem n trn)); [exact H|].
+  destruct H as [<-|H]; [exfalso; apply Hn; left; reflexivity|exact H].
+Qed.
+
+Lemma scan_no_defer incl0 trn0 sub incl trn :
+  fold_left (scan_step g) (todo_of g incl0) ([], incl0, trn0) = (sub, incl, trn) ->
+  forall v, In v (g_nodes g) -> (forall p, In p (parents g v) -> In p incl) -> In v incl \/ In v trn.
+Proof.
+  intros E v Hv Hpar.
+  destruct (In_dec_nat v incl0) as [Hd|Hd].
+  { left. assert (H := scan_incl_mono v (todo_of g incl0) ([], incl0, trn0) Hd). rewrite E in H. exact H. }
+  assert (Hin : In v (todo_of g incl0)).
+  { apply filter_In. split; [exact Hv|]. apply negb_true_iff, mem_false. exact Hd. }
+  apply in_split in Hin as [l1 [l2 El]].
+  assert (ND : NoDup (l1 ++ v :: l2)) by (rewrite <- El; apply NoDup_filter; exact (nodes_NoDup g Hwf)).
+  assert (Htopo := todo_topo g Hwf incl0 l1 v l2 El).
+  rewrite El, fold_left_app in E. cbn [fold_left] in E.
+  destruct (fold_left (scan_step g) l1 ([], incl0, trn0)) as [[sub1 incl1] trn1] eqn:E1.
+  assert (Hp1 : forall p, In p (parents g v) -> In p incl1).
+  { intros p Hp. destruct (Htopo p Hp) as [Hl|Hi].
+    - assert (Hnp : ~ In p (v :: l2)) by (intros Hc; exact (NoDup_app_disjoint _ _ p ND Hl Hc)).
+      assert (H := Hpar p Hp).
+      assert (H' : In p (snd (fst (fold_left (scan_step g) (v :: l2) (sub1, incl1, trn1))))) by (cbn [fold_left]; rewrite E; exact H).
+      exact (scan_incl_back p (v :: l2) (sub1, incl1, trn1) Hnp H').
+    - assert (H := scan_incl_mono p l1 ([], incl0, trn0) Hi). rewrite E1 in H. exact H. }
+  assert (Er : is_input g v || forallb (fun p => mem p incl1) (parents g v) = true) by (apply ready_spec; exact Hp1).
+  unfold scan_step in E at 2. rewrite Er in E.
+  destruct (offline g v && negb (mem v trn1)).
+  - right. assert (H := scan_trn_mono g v l2 (sub1 ++ [v], incl1, v :: trn1) (or_introl eq_refl)). rewrite E in H. exact H.
+  - left. assert (H := scan_incl_mono v l2 ((if is_output g v then sub1 else sub1 ++ [v]), v :: incl1, trn1) (or_introl eq_refl)).
+    rewrite E in H. exact H.
+Qed.
+End NoDefer.
+
 (* ------------------------------------------------------------------------------------------------ the loop is greedy *)
 Section Greedy.
 Variable g : graph.
